@@ -62,6 +62,33 @@ func init() {
 			p.envChanges, p.maxFaults = 3, 4
 		}
 		sc := genW1("C13", seed, p)
+		if seed%3 == 1 {
+			// several small files per payload, the first data requests fail, and
+			// sources change or vanish while those payloads are being retried
+			g := &gen{r: rand.New(rand.NewPCG(seed, 0x13a))}
+			sc.Send.BinSize = int64(g.pick(2048, 4096, 8192))
+			for i := range sc.Files {
+				sc.Files[i].Size = int64(1 + g.n(700))
+			}
+			sc.Faults = nil
+			for k := 1; k <= 1+g.n(3); k++ {
+				sc.Faults = append(sc.Faults, FaultSpec{Req: "data", Nth: k, Fate: connFate{Kind: []string{"cut_req_at", "drop_resp", "cut_after_recorded"}[g.n(3)], Arg: 1 + g.n(300)}})
+			}
+			sc.Env = nil
+			for k := 0; k < 2+g.n(3) && len(sc.Files) > 0; k++ {
+				f := sc.Files[g.n(len(sc.Files))]
+				at := time.Duration(500+g.n(20000)) * time.Millisecond
+				switch g.n(3) {
+				case 0:
+					sc.Env = append(sc.Env, &envAction{Kind: "delete", At: at, Name: f.Name})
+				case 1:
+					sc.Env = append(sc.Env, &envAction{Kind: "replace", At: at, Name: f.Name, Size: int64(1 + g.n(700)), Seed: g.u64(), Age: f.Age / 2})
+				case 2:
+					sc.Env = append(sc.Env, &envAction{Kind: "rewrite", At: at, Name: f.Name, Size: f.Size, Seed: g.u64(), Age: f.Age})
+				}
+			}
+			sc.FaultFree = false
+		}
 		sc.NetFinePct = []int{0, 30, 100, 100}[seed%4]
 		sc.Send.Compression = int(seed>>8) % 10
 		oddNames(sc, seed)
